@@ -66,8 +66,18 @@ def _d(h, cls, state):
     deserialization. For ASTs, this does not work.
     """
     op, args, length, variables, symbolic, annotations = state
+    # the annotations are the node's own, as they were when it was pickled: the relocatable annotations of its children
+    # are among them already - or were removed on purpose (clear_annotations, remove_annotation) and must not come back
     return cls.__new__(
-        cls, op, args, length=length, variables=variables, symbolic=symbolic, annotations=annotations, hash=h
+        cls,
+        op,
+        args,
+        length=length,
+        variables=variables,
+        symbolic=symbolic,
+        annotations=annotations,
+        skip_child_annotations=True,
+        hash=h,
     )
 
 
